@@ -191,8 +191,10 @@ def parser_facts(ctx, b):
             if cb:
                 x, bounds, o = cb
                 back = fl.backward(set(fl.op_nodes(x)))
-                if any(('str>::len' in c.name) for c in b.calls if any(nn in back for nn in fl.call_result_nodes(c))) and o[2]['op'] in ('Ne', 'Eq'):
+                lens = [c for c in b.calls if ('str>::len' in c.name) and any(nn in back for nn in fl.call_result_nodes(c))]
+                if lens and o[2]['op'] in ('Ne', 'Eq'):
                     out['L'] = op_const_bits(o[2]['b']) if op_const_bits(o[2]['b']) is not None else op_const_bits(o[2]['a'])
+                    out['_len_call'] = lens[0]
 
     def arg_text(cs, i):
         if i >= len(cs.args):
@@ -207,6 +209,35 @@ def parser_facts(ctx, b):
                     if o[0] == 'rv' and o[2]['k'] == 'ref':
                         pass
         return t
+    def stripped_by(l, depth=0, seen=None):
+        """number of leading bytes already removed from the &str held in local l (strip_prefix(P) / [k..] / split_at(k).1),
+        0 for the name itself, None if unknown"""
+        seen = seen if seen is not None else set()
+        if l is None or l in seen or depth > 8:
+            return None
+        seen.add(l)
+        tot = None
+        for o in b.trace_local(l):
+            if o[0] == 'param':
+                tot = 0 if tot is None else tot
+            elif o[0] == 'call' and 'strip_prefix' in o[1].name:
+                t_ = arg_text(o[1], 1)
+                inner = stripped_by(o[1].arg_local(0), depth + 1, seen)
+                if t_ is not None and inner is not None:
+                    tot = inner + len(t_)
+            elif o[0] == 'place':
+                inner = stripped_by(o[2]['l'], depth + 1, seen)
+                if inner is not None:
+                    tot = inner
+            elif o[0] == 'rv' and o[2]['k'] == 'ref' and all(e['k'] == 'deref' for e in o[2]['place']['p']):
+                inner = stripped_by(o[2]['place']['l'], depth + 1, seen)
+                if inner is not None:
+                    tot = inner
+            elif o[0] == 'call' and o[1].name.endswith('::branch'):
+                inner = stripped_by(o[1].arg_local(0), depth + 1, seen)
+                if inner is not None:
+                    tot = inner
+        return tot
     for (bi, c, te, fe, cs) in b.switches_on_call(lambda c: 'starts_with' in c.name):
         out['P'] = arg_text(cs, 1)
         out['prefix_edges'].append(te)
@@ -240,6 +271,11 @@ def parser_facts(ctx, b):
             if t is not None:
                 out['P'] = t
                 out['prefix_edges'].append(fe if cs.name.endswith('::ne') else te)
+    # a length required of the REST of the name (after strip_prefix) is a length of the name minus what was stripped
+    if out.get('_len_call') is not None and out['L'] is not None:
+        off = stripped_by(out['_len_call'].arg_local(0))
+        if off:
+            out['L'] += off
     for bi, blk in enumerate(b.blocks):
         if not b.live[bi]:
             continue
@@ -484,7 +520,25 @@ def fs6(ctx):
             for (bj, pl, adt, edges) in b.discr_switches():
                 if 'None' not in edges or pl['p'] or edges['None'] in allowed:
                     continue
-                org = b.trace_local(pl['l'])
+                # (through variant-preserving views: `opt.as_deref()`, `as_ref()`, `cloned()` are None exactly when opt is)
+                org = []
+                seen_, work_ = set(), [pl['l']]
+                while work_:
+                    l_ = work_.pop()
+                    if l_ is None or l_ in seen_:
+                        continue
+                    seen_.add(l_)
+                    for o in b.trace_local(l_):
+                        if o[0] == 'call' and re.search(r'Option::<.*>::(as_deref|as_deref_mut|as_ref|as_mut|cloned|copied)$', o[1].name) and o[1].args:
+                            al_ = o[1].arg_local(0)
+                            # the argument is a borrow of the Option
+                            for o2 in (b.trace_local(al_) if al_ is not None else []):
+                                if o2[0] == 'rv' and o2[2]['k'] == 'ref' and not [e for e in o2[2]['place']['p'] if e['k'] != 'deref']:
+                                    work_.append(o2[2]['place']['l'])
+                                else:
+                                    org.append(o2)
+                        else:
+                            org.append(o)
                 if not org or not all(o[0] == 'rv' and o[2]['k'] == 'agg' and o[2].get('variant') in ('Some', 'None') for o in org):
                     continue
                 nones = [o for o in org if o[2].get('variant') == 'None']
@@ -551,3 +605,32 @@ def fs7(ctx):
                     bad.append('%s (%s: %s)' % (x.loc(cs.point), x.path, cs.name[-30:]))
     ctx.check(not bad, 'no-accumulation', b.span, 'no multiplying / adding accumulation over the name in the %d bodies of the name parser' % len(fam),
               'the name parser computes the file number with arithmetic that overflows on a 20-digit name (%s): open panics (checked builds) or takes a bogus number (release) for a stray `wal-99999999999999999999`' % sorted(set(bad)))
+
+
+@rule('FS8', ['C17', 'C02'], floor=1, template='must-pass-through')
+def fs8(ctx):
+    """A file number the scan did not find is backed by a file the library itself creates: wherever the tracker is
+    started from scratch (`FileTracker::new()`: file 0, which no directory entry vouched for) every successful path
+    goes through the exclusive creation of that file. Deciding it by a filesystem predicate instead (`exists()`,
+    `metadata()`) lets whatever the name resolves to -- a symbolic link, a directory, a fifo: entries the scan rightly
+    refused to track -- stand in for the WAL file: it is then opened, replayed and written through."""
+    n = 0
+    for b in ctx.f.bodies.values():
+        if b.generic_dup() or b.is_test or b.path.startswith('rolling::file_number::'):
+            continue
+        sites = [cs.point for cs in b.calls if cs.path.endswith('rolling::file_number::FileTracker::new')]
+        for (p_, fj) in b.fn_values:
+            if strip_crate(fj.get('name') or fj.get('path') or '').endswith('rolling::file_number::FileTracker::new'):
+                sites.append(p_)
+        if not sites:
+            continue
+        creates = [cs.point for cs in b.calls if cs.node is not None and ctx.E.call_may(cs, 'CREATE')] + [p for (p, e, _cs) in ctx.E.direct_sites(b) if e == 'CREATE']
+        oks = [e['point'] for e in b.ok_exits()] or b.return_points()
+        for k, sp in enumerate(sorted(set(sites))):
+            n += 1
+            r_ = b.reach_after(sp, avoid=creates)
+            skipped = any(e in r_ for e in oks)
+            ctx.check(not skipped, '%s:fresh-tracker-creates-its-file#%d' % (b.path, k + 1), where(b, sp), 'a tracker started from scratch is followed by the exclusive creation of its file on every successful path',
+                      'a tracker started from scratch (file 0, found by no scan) can be returned without the library creating that file: whatever the name resolves to (a symbolic link, a directory) would be opened and written as the WAL file')
+    if n == 0:
+        ctx.missing('fresh', 'no production body starts a FileTracker from scratch')
